@@ -583,6 +583,25 @@ fn run_one(
     }
 }
 
+/// Where a hung worker sits, from the gdb backtraces: the innermost frame of a storage
+/// back end (third party) if there is one, else the innermost frame in the repository.
+fn hang_site(tail: &str) -> Option<String> {
+    let func = |l: &str| -> Option<String> {
+        // "#10 0x... in path::to::function<...> (args) at file:line"  or  "#10 path::to::function (...)"
+        let l = l.trim_start_matches(|c: char| c == '#' || c.is_ascii_digit() || c == ' ');
+        let l = l.strip_prefix("0x").map_or(l, |r| r.split_once(" in ").map_or(l, |x| x.1));
+        let name = l.split(" (").next()?.split('<').next()?.trim();
+        if name.is_empty() { None } else { Some(name.to_string()) }
+    };
+    let names: Vec<String> = tail.lines().filter(|l| l.starts_with('#')).filter_map(func).collect();
+    for pat in ["fjall::", "lsm_tree::", "rocksdb::", "rust_rocksdb::", "librocksdb"] {
+        if let Some(n) = names.iter().find(|n| n.starts_with(pat)) {
+            return Some(n.clone());
+        }
+    }
+    names.into_iter().find(|n| n.starts_with("qbice"))
+}
+
 fn proc_tree_cpu(pid: u32) -> u64 {
     // the worker plus its direct children (kill-child style workers)
     let mut t = proc_cpu_ticks(pid).unwrap_or(0);
@@ -741,7 +760,7 @@ pub fn run_check(meta: CheckMeta, seed: u64, tier: Tier, replay: Option<&str>) -
                     all_viol.push((
                         wid.clone(),
                         Violation {
-                            signature: format!("{}/{h} part={}", meta.id, o.part),
+                            signature: format!("{}/{h} part={}{}", meta.id, o.part, hang_site(&o.stderr_tail).map(|x| format!(" at {x}")).unwrap_or_default()),
                             what: if h == "deadlock" {
                                 format!("worker quiescent (no CPU, no progress) with case outstanding: {case}")
                             } else {
